@@ -275,6 +275,7 @@ def report(pid, tier, seed, mod, results, wall):
                          loops_cut=v.get('cut'), dropped=v.get('dropped'),
                          callees_stubbed=v.get('stubs'))
                     for k, v in sorted(functions.items())],
+        lemma_schema_instances=dict(total=sum(len(r.get('instances') or []) for r in results), sample=next((r['instances'][:12] for r in results if r.get('instances')), [])),
         slowest_families=sorted(((r.get('wall_s', 0), r['family']) for r in results), reverse=True)[:8],
         undecided=[f'{a}: {b}' for a, b in undecided][:50],
         known_findings_reported=sorted(seen_known),
